@@ -13,7 +13,8 @@ RULE = (
     'seeded random hands on all structures (fixed/pot/no-limit) x modes x '
     'blind/straddle/post/bring-in layouts x caps (4 / None / 0-3 on custom '
     'games), stacks near the thresholds, 2-9 players, int and Fraction '
-    'chips. At EVERY betting decision the reference round (advanced by the '
+    'chips, with and without a rake function (the pot-sized raise counts '
+    'every chip in the middle). At EVERY betting decision the reference round (advanced by the '
     'observed operations) must agree with the engine on: actor, round end, '
     'fold legality (strict and lenient), call amount, bring-in, raise '
     'admissibility and the interval [min, max] and pot-size; then '
@@ -36,7 +37,8 @@ REQUIRED = ('decisions_checked', 'raise_intervals_probed', 'cap_refusals',
             'short_allin_refusals', 'short_allin_reopened',
             'bring_in_decisions', 'completions', 'fold_refused_tournament',
             'fold_warned_cash', 'rounds_with_raise',
-            'pot_limit_probes', 'fixed_limit_probes')
+            'pot_limit_probes', 'fixed_limit_probes',
+            'pot_limit_probes_raked_pot')
 
 BETTING = ('Folding', 'CheckingOrCalling', 'BringInPosting',
            'CompletionBettingOrRaisingTo')
@@ -226,6 +228,10 @@ class BettingMonitor(Monitor):
         ctx.counters['raise_intervals_probed'] += 1
         if r.structure == 'Pot-limit':
             ctx.counters['pot_limit_probes'] += 1
+            if ctx.cfg['rake'] and r.pot_collected:
+                # the pot-sized raise counts every chip in the middle; the
+                # rake is only taken when the pot is pushed
+                ctx.counters['pot_limit_probes_raked_pot'] += 1
         elif r.structure == 'Fixed-limit':
             ctx.counters['fixed_limit_probes'] += 1
         if isinstance(lo, int) and isinstance(hi, int):
@@ -260,7 +266,7 @@ def gen_kwargs(rng):
     return dict(
         customs=CUSTOMS, p_custom=0.3,
         chip_types=('int', 'int', 'int', 'Fraction'),
-        max_boards=1, rake_ok=False, divmod_ok=False, strict_p=0.85,
+        max_boards=1, rake_ok=True, divmod_ok=False, strict_p=0.85,
         auto_styles=('typical', 'all', 'any'),
     )
 
